@@ -209,6 +209,10 @@ pub struct ClientSpec {
     /// bytes sent before anything else (PROXY protocol header), not counted as a frame
     #[serde(default, with = "hexopt")]
     pub preamble: Option<Vec<u8>>,
+    /// back-to-back frames may reach the server in one read (TCP coalescing); boundaries made by
+    /// `cuts` stay hard
+    #[serde(default)]
+    pub coalesce: bool,
     /// seed for the client's own padding / random tokens
     pub rng: u64,
 }
@@ -242,6 +246,7 @@ impl ClientSpec {
             mute_after: None,
             close_on_end_ns: Some(0),
             preamble: None,
+            coalesce: false,
             rng: rng.next_u64(),
         }
     }
@@ -488,11 +493,13 @@ impl<'a> Engine<'a> {
         }
         segs.push((bytes[(pos - start) as usize..].to_vec(), gate, spurious));
         let nsegs = segs.len();
-        for (b, g, s) in segs {
+        for (i, (b, g, s)) in segs.into_iter().enumerate() {
             if !matches!(g, Gate::Now) {
                 self.pipe.world.lock().unwrap().fault("c2s_gated_segment");
             }
-            self.pipe.send_seg(b, g, s);
+            // only the boundary in front of a frame (not one a cut asked for) may be coalesced away
+            let join = self.spec.coalesce && i == 0 && start > 0;
+            self.pipe.send_seg_join(b, g, s, join);
         }
         if nsegs > 1 {
             self.pipe.world.lock().unwrap().fault("c2s_frame_split");
@@ -829,6 +836,13 @@ impl<'a> Engine<'a> {
                     Step::Close { reset } => self.do_close(reset),
                 }
                 if i + 1 < steps.len() {
+                    // the client switches its own decryption on when it sends the Encryption Response:
+                    // everything the server wrote earlier must have arrived by then (services are instant)
+                    // (and an end of stream that races with the handling of the last frame may
+                    // legitimately cut the server's answer short: keep it apart as well)
+                    if matches!(steps[i + 1], Step::Enc { .. } | Step::Close { .. }) {
+                        gap = gap.max(1_000_000);
+                    }
                     self.at(gap, Action::Script(i + 1));
                 }
             }
